@@ -666,10 +666,7 @@ theorem C05_grow (H : Bytes → Bytes) (hH : ∀ b, (H b).length = 32) (S : Nat)
         show w.seq = w.ckseq
         rw [hinv.seq, hinv.ckseq, this]; rfl)
       hinv.pendingSize w.ckh false
-    rw [e]
-    show Except.ok ({ w with S := S + d, region := w.region ++ zeros d, ckh := w.ckh % (S + d),
-      appends := 0, ro := false } : Wal) = Except.ok wg
-    rw [← hro]
+    rw [e, ← hro]
   · intro ops2 hwf2 hl2
     have hsb : s.seq ≤ ops.length := by
       have : ∀ (ops : List Op) (s0 : Spec), (Spec.run S s0 ops).seq ≤ s0.seq + ops.length := by
